@@ -207,12 +207,16 @@ class NetworkGraph(AbstractBaseIR):
                     else:
                         scalar_edges.append((s, t, e))
 
+                n_buffers = 0
                 for s, t, e in matrix_edges + global_edges:
                     d = self.edges[s, t, e].get('delay')
                     v = self.edges[s, t, e].get('spread')
                     if d is not None and d > self.step_size:
+                        # every delayed connection that leaves this variable gets a delay buffer of its own
                         self._add_matrix_delay(node_name, op_name, var_name, (s, t, e),
-                                               d, v, dde_approx=dde_approx)
+                                               d, v, dde_approx=dde_approx,
+                                               buffer_id=f"_m{n_buffers}" if n_buffers else "")
+                        n_buffers += 1
 
                 if not scalar_edges:
                     continue
